@@ -34,7 +34,7 @@ for p in props:
             'design_ref': f'DESIGN.md section 4, {pid}',
         },
         'level_note': M.get('level_note') or ('Trusted: CPython ast parser, the cverif normaliser/evaluator, the frozen expectation tables; numpy/pandas/h5py library semantics are assumed. Not decided: ' + '; '.join(M.get('not_decided', []))),
-        'technique': M.get('technique', 'static analysis: ast-based symbolic dataflow (term reconstruction + normalisation), guard/ordering rules and agreement tables over the current source') + '; effect-level comparison of the anchored functions (and of the plumbing that calls into them) with reference models derived from the property, in case-split normal form (conditional expressions lifted into complete path conditions, propositional comparison of the guarded effects)',
+        'technique': M.get('technique', 'static analysis: ast-based symbolic dataflow (term reconstruction + normalisation), guard/ordering rules and agreement tables over the current source') + '; effect-level comparison of the property\'s mechanism functions (named by its anchors), of what they call (depth 2) and of the plumbing that calls them, with reference models derived from the property, in case-split normal form (conditional expressions lifted into complete path conditions; propositional and integer-aware comparison of the guarded effects)',
     })
 m = {
     'version': 1,
@@ -51,7 +51,7 @@ m = {
          'kind_free_text': 'repository-specific static analysis on Python ast: program model, symbolic dataflow term reconstruction with idiom normalisation, effect-level comparison with reference models (guarded effects, case-split normal form, in-place evaluation of helpers unknown to the checker), guard/ordering/ownership rules, agreement tables, finite-domain small-model enumeration (C03)'},
     ],
     'checks': checks,
-    'notes': 'All checks are pure static analysis of /repo/src/cooler (and docs/schema_v3.rst); nothing from the repository is imported or executed. Exit 0 = all obligations discharged (KNOWN-FINDING lines allowed), 1 = VIOLATION, 2 = ANALYSIS-ERROR (vanished anchor / unrecognised construct). Known findings: /verif/known_findings.json. Validation of the checker itself (never part of a verdict): selftest/run.py (catalogue of mutants and refactors), selftest/automutate.py [--union] (AST mutation sweeps), selftest/autorefactor.py (22 behaviour-preserving rewrite operators), selftest/mutate_benign.py (mutants of refactored code), tools/run_seeds.sh (119 independently seeded breaking changes in seeded/), tools/run_benign.sh (80 independently written behaviour-preserving maintenance changes in benign/).',
+    'notes': 'All checks are pure static analysis of /repo/src/cooler (and docs/schema_v3.rst); nothing from the repository is imported or executed. Exit 0 = all obligations discharged (KNOWN-FINDING lines allowed), 1 = VIOLATION, 2 = ANALYSIS-ERROR (vanished anchor / unrecognised construct). Known findings: /verif/known_findings.json. Validation of the checker itself (never part of a verdict): selftest/run.py (catalogue of mutants and refactors), selftest/automutate.py [--union] (AST mutation sweeps), selftest/autorefactor.py (22 behaviour-preserving rewrite operators), selftest/mutate_benign.py (mutants of refactored code), tools/run_seeds.sh (239 independently seeded breaking changes in seeded/, four rounds), tools/run_benign.sh (independently written behaviour-preserving maintenance changes in benign/, three probes), tools/coverage_gaps.py (package functions without a reference model).',
     'not_applicable': na,
 }
 json.dump(m, open(os.path.join(HERE, 'MANIFEST.json'), 'w'), indent=1)
